@@ -370,6 +370,17 @@ pub fn run_case(master: u64, idx: u64, profile: &str) -> OpsCase {
                 yaml.push_str(&format!("o{}:\n  type: optional\n  initPresent: false\n  valueType:\n    type: anon map\n    initSize: 3\n    valueType:\n      type: bool\n      init: false\n", k));
             }
             yaml.push_str("v:\n  type: variant\n  init: a\n  a:\n    type: const\n  b:\n    type: anon map\n    initSize: 4\n    valueType:\n      type: bool\n      init: true\n");
+        } else if !long && family == 1 && r.chance(1, 3) {
+            // a wide sub (8..14 distinct real fields) with a nested one: hash tables big enough for their iteration order
+            // to depend on how they were filled (collected at once, or key by key when read from JSON)
+            let n = 8 + r.below(7);
+            for k in 0..n {
+                yaml.push_str(&format!("k{}:\n  type: real\n  init: {}.5\n  scale: 1.0\n", k, k));
+            }
+            yaml.push_str("inner:\n");
+            for k in 0..7 {
+                yaml.push_str(&format!("  j{}:\n    type: int\n    init: {}\n    scale: 2.0\n", k, 10 * k));
+            }
         } else {
             gen_spec_yaml(&mut r, depth, 0, &mut yaml);
         }
@@ -465,7 +476,13 @@ pub fn run_case(master: u64, idx: u64, profile: &str) -> OpsCase {
                         *s = s0;
                     }
                 }
-                let parents: Vec<&Value> = srcs.iter().map(|i| &pool[*i]).collect();
+                // some parents are handed over as equal values built along another route (read back from their JSON):
+                // the same value, a differently filled hash table
+                let twins: Vec<Option<Value>> = srcs
+                    .iter()
+                    .map(|i| if r.chance(1, 3) { cambrian::value_util::from_json_value(&pool[*i].to_json(), &spec).ok().filter(|t| *t == pool[*i]) } else { None })
+                    .collect();
+                let parents: Vec<&Value> = srcs.iter().zip(twins.iter()).map(|(i, t)| t.as_ref().unwrap_or(&pool[*i])).collect();
                 let p = CrossoverParams { crossover_prob: prob(&mut r), selection_pressure: prob(&mut r) };
                 let out = crossover.crossover(&spec, &parents, &p, &mut ctx, &mut rng);
                 ops.push(format!(
